@@ -107,6 +107,9 @@ func (w *world) stepHeight(forceTxs int) {
 			w.authAttack(g)
 		}
 	}
+	if (c.Prop == "C11" || c.Prop == "C03") && t.Chance(1, 12) {
+		w.bigBatch(ups)
+	}
 	if (c.Prop == "C07" || c.Prop == "C03" || c.Prop == "C11" || c.Prop == "C04") && t.Chance(1, 3) {
 		// the last arrival before the proposal is built pays the highest fee and fails in its handler
 		w.submit(w.genFailingTx(ups[0]))
@@ -500,4 +503,42 @@ func (w *world) pickKeyOf(kind string) *actor {
 		}
 	}
 	return w.actors[len(w.actors)-1]
+}
+
+// bigBatch: several hundred transfers arrive at once (a block with more than 256 transactions).
+func (w *world) bigBatch(ups []*node) {
+	c := w.c
+	t := c.T
+	n := ups[0]
+	w.focus(n)
+	sm := n.ctl.FSM
+	from := w.pickActor(func(a *actor) bool { return a.kind == "ed25519" })
+	acc, err := sm.GetAccount(crypto.NewAddressFromBytes(from.addr))
+	if err != nil || acc == nil || acc.Amount < 8_000_000 {
+		return
+	}
+	count := 258 + t.Intn(80)
+	var batch [][]byte
+	for i := 0; i < count; i++ {
+		to := w.pickActor(nil)
+		tx, e := fsm.NewSendTransaction(from.key, crypto.NewAddressFromBytes(to.addr), uint64(1+i), 1, 1, 10000+uint64(t.Intn(3)), sm.Height(), "")
+		if e != nil {
+			return
+		}
+		bz, e := lib.Marshal(tx)
+		if e != nil {
+			return
+		}
+		batch = append(batch, bz)
+	}
+	nOK := 0
+	for _, nd := range ups {
+		w.focus(nd)
+		if err := nd.ctl.Mempool.HandleTransactions(batch...); err == nil {
+			nOK++
+		}
+	}
+	w.txSeq++
+	c.Fault("big_batch_of_transfers")
+	c.Logf("tx#%d BATCH of %d transfers from %s (accepted by %d mempools)", w.txSeq, count, from.name, nOK)
 }
